@@ -35,6 +35,17 @@ func runC02(w *World, r *Report) {
 	c02PatchKind(w, r)
 	c02Uninstall(w, r)
 	c01HistoryOrder(w, r, "C02/LATEST-REVISION")
+	// the objects sent to the cluster are the manifest's: the pre-flight that looks at them first must not
+	// replace them by the live objects (shared with C07)
+	r.Rule("C02/PREFLIGHT", "the ownership pre-flight only reads: it never refreshes the resource infos that are sent to the cluster afterwards, and treats only not-found as absent", 4)
+	r.Remap = func(rule string) string {
+		if rule == "C07/PREFLIGHT" {
+			return "C02/PREFLIGHT"
+		}
+		return rule
+	}
+	c07Preflight(w, r)
+	r.Remap = nil
 }
 
 func c02DiffArgs(w *World, r *Report) {
